@@ -10,25 +10,30 @@ import (
 // A Scenario is everything a simulated run of the DAG runner depends on, apart from the decisions
 // of the Chooser. It is generated from one seed and stored explicitly in replay files.
 type Scenario struct {
-	N       int          `json:"n"`     // task ids are t00..t(N-1); only ids mentioned in Build exist
-	Tasks   []TaskSpec   `json:"tasks"` // behaviour per task id
-	Build   []Call       `json:"build"` // construction history: public API calls in order
-	Graphs  int          `json:"graphs"`
-	Serial  bool         `json:"serial,omitempty"`
-	MaxPar  int          `json:"max_par,omitempty"` // 0 = SetMaxParallel not called
-	Buffer  bool         `json:"buffer,omitempty"`
-	TickNS  int64        `json:"tick_ns"`
-	Cancel  CancelSpec   `json:"cancel"`
-	Writer  WriterSpec   `json:"writer"`
-	LogErr  bool         `json:"log_err,omitempty"` // dag.Logger's sink fails every write
-	Policy  simrt.Policy `json:"policy"`
-	MapBase string       `json:"map_base,omitempty"`
-	ChSeed  uint64       `json:"chooser_seed"`
-	Phase2  *Phase2Spec  `json:"phase2,omitempty"`    // single graph only: after a clean first Run, extend the graph and Run it again
-	Phase3  *Phase2Spec  `json:"phase3,omitempty"`    // ... and once more after a clean second Run
-	Again   bool         `json:"run_again,omitempty"` // single graph, no cancellation: call Run once more on the same graph after the last Run, whatever it returned
-	Family  string       `json:"family,omitempty"`    // graph shape family / sweep tag (informational)
-	Mode    string       `json:"mode,omitempty"`      // canonical | permuted | wild
+	N           int          `json:"n"`     // task ids are t00..t(N-1); only ids mentioned in Build exist
+	Tasks       []TaskSpec   `json:"tasks"` // behaviour per task id
+	Build       []Call       `json:"build"` // construction history: public API calls in order
+	Graphs      int          `json:"graphs"`
+	Serial      bool         `json:"serial,omitempty"`
+	MaxPar      int          `json:"max_par,omitempty"` // 0 = SetMaxParallel not called
+	Buffer      bool         `json:"buffer,omitempty"`
+	TickNS      int64        `json:"tick_ns"`
+	Cancel      CancelSpec   `json:"cancel"`
+	Writer      WriterSpec   `json:"writer"`
+	LogErr      bool         `json:"log_err,omitempty"` // dag.Logger's sink fails every write
+	Policy      simrt.Policy `json:"policy"`
+	MapBase     string       `json:"map_base,omitempty"`
+	ChSeed      uint64       `json:"chooser_seed"`
+	Phase2      *Phase2Spec  `json:"phase2,omitempty"`       // single graph only: after a clean first Run, extend the graph and Run it again
+	Phase3      *Phase2Spec  `json:"phase3,omitempty"`       // ... and once more after a clean second Run
+	IDScheme    int          `json:"id_scheme,omitempty"`    // 0: t00,t01..; 1: every id is a prefix of the next; 2: ids with spaces, slashes, quotes, non-ASCII
+	UseTaskMap  bool         `json:"use_task_map,omitempty"` // primary Task objects come from TaskMap.Add/Get
+	UseColor    bool         `json:"use_color,omitempty"`
+	MaxParFirst int          `json:"max_par_first,omitempty"` // an earlier SetMaxParallel call with this value (the later one wins)
+	SerialLast  bool         `json:"serial_last,omitempty"`   // SetSerial is called after SetMaxParallel instead of before
+	Again       bool         `json:"run_again,omitempty"`     // single graph, no cancellation: call Run once more on the same graph after the last Run, whatever it returned
+	Family      string       `json:"family,omitempty"`        // graph shape family / sweep tag (informational)
+	Mode        string       `json:"mode,omitempty"`          // canonical | permuted | wild
 }
 
 // Phase2Spec: more construction calls and possibly a new limit, applied after the first Run
@@ -36,6 +41,7 @@ type Scenario struct {
 type Phase2Spec struct {
 	Build  []Call `json:"build"`
 	MaxPar int    `json:"max_par,omitempty"` // >0: SetMaxParallel(MaxPar) before the second Run
+	TickNS *int64 `json:"tick_ns,omitempty"` // a new TickerDuration for the next Run
 }
 
 // ExtraPhases lists the phases after the first Run, in order.
@@ -107,6 +113,8 @@ func (c Call) String() string {
 		return fmt.Sprintf("AddTask(&Task{ID:t%02d, Fn:nil})", c.T)
 	case "addnoid":
 		return "AddTask(&Task{ID:\"\"})"
+	case "addtmunknown":
+		return "AddTask(taskMap.Get(\"no-such-task\"))"
 	case "dfs":
 		return "DepthFirstSort()"
 	case "validate":
@@ -206,7 +214,7 @@ func (sc *Scenario) ModelForPhase(g, phase int) *Model {
 			if !m.Exists[c.T] {
 				m.DefErrors++ // ErrorTaskNotFound
 			}
-		case "addnil", "addnofn", "addnoid":
+		case "addnil", "addnofn", "addnoid", "addtmunknown":
 			m.DefErrors++
 		}
 	}
@@ -502,7 +510,9 @@ func buildCalls(r *simrt.RNG, n int, deps [][]int, retries []int, mode string, m
 	}
 	// definition errors: 25 %
 	if r.Intn(100) < 25 {
-		switch r.Intn(5) {
+		switch r.Intn(6) {
+		case 5:
+			ins(Call{Op: "addtmunknown"})
 		case 0:
 			ins(Call{Op: "addnil"})
 		case 1:
@@ -567,6 +577,11 @@ func Generate(seed uint64, o GenOpts) *Scenario {
 		sc.N = 4 + r.Intn(maxN-3)
 	}
 	sc.Family = families[r.Intn(len(families))]
+	huge := r.Intn(150) == 0
+	if huge { // hundreds of quick tasks: whatever only matters beyond some size (buffers, counters, table growth)
+		sc.N = 64 + r.Intn(120)
+		sc.Family = "forest"
+	}
 	sc.ChSeed = r.Uint64()
 	sc.Policy, sc.MapBase = genPolicy(r)
 	sc.TickNS = tickChoices[r.Intn(len(tickChoices))]
@@ -581,6 +596,9 @@ func Generate(seed uint64, o GenOpts) *Scenario {
 		if sc.N < 5 {
 			sc.N = 5 + r.Intn(maxN-4)
 		}
+	}
+	if huge {
+		sc.Family = []string{"forest", "flat", "chain"}[r.Intn(3)]
 	}
 	deps := genEdges(r, sc.N, sc.Family)
 
@@ -601,6 +619,29 @@ func Generate(seed uint64, o GenOpts) *Scenario {
 			sc.MaxPar = 1 + r.Intn(4)
 		}
 	}
+	sc.IDScheme = []int{0, 0, 0, 1, 2}[r.Intn(5)]
+	if huge {
+		sc.IDScheme = 0 // ids that are 200-character prefixes of each other only make sorting slow
+	}
+	defer func() {
+		if huge { // keep the big ones cheap: no 70 KiB outputs, short tasks
+			for i := range sc.Tasks {
+				for k := range sc.Tasks[i].Attempts {
+					a := &sc.Tasks[i].Attempts[k]
+					a.Big = false
+					if a.Dur > 2 {
+						a.Dur = 2
+					}
+				}
+			}
+		}
+	}()
+	sc.UseTaskMap = r.Intn(6) == 0
+	sc.UseColor = r.Intn(5) == 0
+	if sc.MaxPar > 0 && r.Intn(4) == 0 {
+		sc.MaxParFirst = 1 + r.Intn(5)
+	}
+	sc.SerialLast = r.Intn(2) == 0
 	sc.Buffer = r.Intn(2) == 0
 	if sc.Buffer {
 		sc.Writer.Yield = r.Intn(4) != 0
@@ -722,6 +763,10 @@ func Generate(seed uint64, o GenOpts) *Scenario {
 			sc.N = old + nnew
 			if r.Intn(4) == 0 {
 				p2.MaxPar = 1 + r.Intn(2)
+			}
+			if r.Intn(4) == 0 {
+				t := tickChoices[r.Intn(len(tickChoices))]
+				p2.TickNS = &t
 			}
 			if r.Intn(5) == 0 { // a cycle through a vertex that completed in the first run
 				a, c := r.Intn(old), old+r.Intn(nnew)
